@@ -78,6 +78,53 @@ def oracleLine (pid kind : String) (args : List String) (go : String) : String :
   | "C09", "prog", [steps] => walk ["insert", "delete", "overtype"] steps go
   | "C10", "prog", [steps] =>
     walk ["lines", "linesfrom", "linesto", "linecount", "apply", "commit", "string"] steps go
+  | "C06", "wrapl", [t, w, sep] =>
+    match parseText t, parseInt w, parseText sep with
+    | some t, some w, some sep =>
+      let w' : Nat := (if w < 2 then 2 else w).toNat
+      match (go.splitOn "~") with
+      | ["L", ls] =>
+        let lines := if ls.isEmpty then some [] else (ls.splitOn "/").mapM parseText
+        match lines with
+        | some lines =>
+          if lines.any fun l => (toks l).length > w' then "fail:C06(1) a line exceeds the width (manip.Wrap)"
+          else if !stableDom [t] [sep] then "ok"
+          else
+            let exp := (Spec.wrapLines tkA w' (toks (flatText t sep))).map joinToks
+            if exp == lines then "ok" else "fail:C06 manip.Wrap differs from the greedy wrap specification on a stable text"
+        | none => "skip:parse"
+      | _ => if go.startsWith "X~" then "fail:C18 manip.Wrap failed" else "skip:shape"
+    | _, _, _ => "skip:parse"
+  | "C12", "justl", [t, w] =>
+    match parseText t, parseInt w with
+    | some t, some w =>
+      match go.splitOn "~" with
+      | ["S", o] =>
+        match parseText o with
+        | some o =>
+          if !stableDom [t] [[0xA]] then "ok"
+          else match checkJustifyLine w t o with
+            | some e => "fail:" ++ e ++ " (manip.JustifyLine)"
+            | none => "ok"
+        | none => "skip:parse"
+      | _ => if go.startsWith "X~" then "fail:C18 manip.JustifyLine failed" else "skip:shape"
+    | _, _ => "skip:parse"
+  | "C13", "alignl", [k, t, w] =>
+    match parseText t, parseInt w with
+    | some t, some w =>
+      match go.splitOn "~" with
+      | ["S", o] =>
+        match parseText o with
+        | some o =>
+          if !stableDom [t] [] then "ok"
+          else
+            let li := toks t
+            let exp := joinToks (if k == "L" then Spec.alignLeft tkA w li else if k == "R" then Spec.alignRight tkA w li
+              else Spec.alignCenter tkA w li)
+            if exp == o then "ok" else s!"fail:C13 manip.AlignLine{k} differs from the specification; expected {showText exp}"
+        | none => "skip:parse"
+      | _ => "skip:shape"
+    | _, _ => "skip:parse"
   | "C06", "prog", [steps] | "C07", "prog", [steps] | "C12", "prog", [steps] | "C13", "prog", [steps] =>
     walkLayout pid steps go
   | "C11", "prog", [steps] => walkPara steps go
